@@ -139,7 +139,10 @@ Parse(b) ==
 (*  - string: UTF-8.  A string option that is not valid UTF-8 (RFC 3629) is  *)
 (*    not a well-formed value; one that contains control characters is left  *)
 (*    open (Net-Unicode discourages them): both are outside the set on       *)
-(*    which exact fields are demanded.                                       *)
+(*    which exact fields are demanded.  Any other valid UTF-8 value is an    *)
+(*    opaque byte string to the codec: no Unicode normalisation (NFC, NFD,   *)
+(*    NFKC, NFKD) may happen on the way in or out -- Field() returns the     *)
+(*    value bytes verbatim, EncMsg copies them verbatim.                     *)
 (* Numbers in none of the tables: the statement is silent on whether the     *)
 (* library reads them as opaque or as uint, both representations are given.  *)
 UintOpts   == {6, 7, 12, 14, 16, 17, 23, 27, 28, 60, 258}
